@@ -30,6 +30,13 @@ def main(tier, seed, replay=None):
             sc = sk.gen_stop_scenario(rnd)
             sc['drops'] = []
             scs.append(sc)
+        # the input of known finding F19, always part of the run: nothing to stop, shutdown / restart issued on a
+        # non-Master, the Master serves its own order before its last publications have left
+        for kind in ('shutdown', 'restart'):
+            scs.append({'apps': [{'name': 'A', 'seq': 0, 'procs': [{'name': 'p1', 'seq': 1, 'target': 'n2',
+                                                                   'behaviour': 'normal', 'stopwaitsecs': 5}]}],
+                        'trigger': (kind, 'n2', kind, []), 'drops': [], 'rounds': 20, 'n': 3, 'pre_start': [],
+                        'settle_rounds': 3, 'race_order': True})
     sk.model_check(v, tier)
     traces = sk.run_scenarios(scs)
     allv = sk.judge(v, traces, scs, LABELS, TERMINAL)
